@@ -153,7 +153,7 @@ func TestVerifC16(t *testing.T) {
 		}
 		var ds []dv
 		for j := 0; j < k; j++ {
-			d := dv{[]string{"alpha", "beta", "gamma", "alpha"}[rng.intn(4)], uint64(rng.intn(3)), uint64(rng.intn(4)), uint64(rng.intn(3))}
+			d := dv{[]string{"alpha", "beta", "gamma", "alpha", "pre", "preconf", "preconfirmation"}[rng.intn(7)], uint64(rng.intn(3)), uint64(rng.intn(4)), uint64(rng.intn(3))}
 			ds = append(ds, d)
 			group = append(group, c16Desc{hx(d.name), hx(fmt.Sprintf("%d.%d.%d", d.M, d.m, d.p))})
 		}
@@ -167,6 +167,18 @@ func TestVerifC16(t *testing.T) {
 				in := c16In{Incoming: hx(fmt.Sprintf("/%s/%d.%d.%d", iname, iM, im, ip)), Name: hx(d.name),
 					Version: hx(fmt.Sprintf("%d.%d.%d", d.M, d.m, d.p)), Claim: &c16Claim{hx(iname), iM, im, ip, d.M, d.m, d.p},
 					Group: group, Index: idx}
+				out.emit(in, c16Run(in))
+			}
+			// identifiers that merely begin with the handler's name and end with exactly its version:
+			// a longer name, a name with a suffix, extra path segments
+			hv := fmt.Sprintf("%d.%d.%d", d.M, d.m, d.p)
+			for _, other := range []string{d.name + "irmation", d.name + "-legacy", d.name + "2"} {
+				in := c16In{Incoming: hx("/" + other + "/" + hv), Name: hx(d.name), Version: hx(hv),
+					Claim: &c16Claim{hx(other), d.M, d.m, d.p, d.M, d.m, d.p}, Group: group, Index: idx}
+				out.emit(in, c16Run(in))
+			}
+			for _, raw := range []string{"/" + d.name + "/extra/" + hv, "/" + d.name + "/9.9.9/" + hv, "/" + d.name + "//" + hv} {
+				in := c16In{Incoming: hx(raw), Name: hx(d.name), Version: hx(hv), Group: group, Index: idx}
 				out.emit(in, c16Run(in))
 			}
 		}
